@@ -20,7 +20,7 @@ func init() {
 			"(authorization appended before the device can report, key written before any authorization is accepted: C06/C07 ORDER rules) - these are the premises of the README's argument that reading dependents first yields a dependency-closed, record-aligned snapshot; " +
 			"SECRET the zip writer receives bytes only from (a) files named by ranging over PublicFiles, which does not contain server.keys, (b) the first result (public half) of the key loader, never the private half or the key file's tail, and (c) the constant README; " +
 			"LIMIT the rate-limit test dominates the creation of the archive and uses the limiter constructed from apiArchiveLimit/apiArchiveRate (positive constants in every configuration), and the structural rules of the limiter itself (C19: expiry keeps exactly the timestamps inside the window, admission iff fewer than the limit remain, all under its mutex) are re-run here. " +
-			"PREFIX the archive entry of a public file is io.Copy of the opened *os.File itself up to EOF (no limiting or offset reader), which with append-only writers is a record-aligned prefix. NOT decided: atomicity of a single write(2) against a concurrent read(2) (operating system, trusted); actual interleavings of writers with the archive loop.",
+			"PREFIX the archive entry of a public file is io.Copy of the opened *os.File itself up to EOF (no limiting or offset reader), which with append-only writers is a record-aligned prefix. the device-table rules of C06 and the builder rules of C03 are re-run as premises of the closure argument. NOT decided: atomicity of a single write(2) against a concurrent read(2) (operating system, trusted); actual interleavings of writers with the archive loop.",
 		Assumptions: append([]string{"an O_APPEND write of one buffer and a concurrent read see either none or all of the record (README: File Writing and Archiving)"}, baseAssumptions...),
 		Run:         runC14,
 	})
@@ -394,6 +394,13 @@ func runC14(c *an.Ctx) {
 			}
 		}
 		c.Check(okCtor, "LIMIT", ctor, ctor.Pos(), an.KeyOf(ctor, "limiter-constructed"), "the archive limiter is constructed from the configured constants", "glow.NewRateLimiter(const, const)")
+	}
+	// premises of the README's closure argument, owned by other properties and re-run: an authorization is on disk
+	// before the device can report (C06 persist-first), and an archived week's record is signed over its final contents
+	// (C03 builder rules), so every archived statistic verifies under the archived server key
+	authTableRules(c, "C14")
+	if b := findBuilder(p); b != nil {
+		buildRules(c, b)
 	}
 	// the limiter's own sliding-window rules (owned by C19) are a premise of "no more than the configured number per window": re-run
 	runC19(c)
